@@ -411,6 +411,25 @@ class Interp:
                 self.block(s.finalbody, env)
         elif isinstance(s, ast.FunctionDef):
             env.set(s.name, Closure(s, env, self))
+        elif isinstance(s, ast.Delete):
+            for t in s.targets:
+                if isinstance(t, ast.Subscript):
+                    v = self.ev(t.value, env)
+                    if not isinstance(v, (list, dict)):
+                        raise AnalysisError(f'interpreter: `{norm(s)}` on a stand-in is not modelled')
+                    if isinstance(t.slice, ast.Slice):
+                        lo = self.ev(t.slice.lower, env) if t.slice.lower else None
+                        hi = self.ev(t.slice.upper, env) if t.slice.upper else None
+                        del v[lo:hi]
+                    else:
+                        try:
+                            del v[self.ev(t.slice, env)]
+                        except (KeyError, IndexError) as x:
+                            raise Raised(type(x).__name__, s)
+                elif isinstance(t, ast.Name) and t.id in env.vars:
+                    del env.vars[t.id]
+                else:
+                    raise AnalysisError(f'interpreter: unmodelled statement `{norm(s)}`')
         elif isinstance(s, ast.Pass):
             pass
         elif isinstance(s, ast.Break):
